@@ -315,8 +315,20 @@ class PageBreakCalculator(BaseModel):
                 actual_font_size = font_size
                 actual_font = 1
 
-                if table_attrs:
-                    pass
+                if table_attrs is not None:
+                    # table_attrs only describes the displayed columns
+                    from ..attributes import BroadcastValue
+
+                    attr_font_size = BroadcastValue(
+                        value=table_attrs.text_font_size, dimension=None
+                    ).iloc(row_idx, width_idx)
+                    if attr_font_size is not None:
+                        actual_font_size = attr_font_size
+                    attr_font = BroadcastValue(
+                        value=table_attrs.text_font, dimension=None
+                    ).iloc(row_idx, width_idx)
+                    if attr_font is not None:
+                        actual_font = attr_font
 
                 text_width = get_string_width(
                     cell_value,
